@@ -490,6 +490,12 @@ func TestVerif_C16_JSON(t *testing.T) {
 		}
 		res.sample(d + " => " + string(data))
 	}
+	// decoding into a value that was used before takes nothing over from it
+	res.Evaluations++
+	reused := []Rule{{"A", "a", Pop()}, {"C", "c", Push("X")}}
+	if err := json.Unmarshal([]byte(`[{"name":"B","pattern":"b"}]`), &reused); err != nil || len(reused) != 1 || reused[0].Action != nil || reused[0].Name != "B" {
+		res.violate("a rule without an action decoded into a reused slice comes out as %+v (%v)", reused, err)
+	}
 	res.emit(t)
 }
 
